@@ -90,6 +90,12 @@ class _Named:
         self._a, self._how = list(atoms), how
 
     def __getitem__(self, i):
+        if self._how == 3:
+            # named by its Element - which means "the first atom of that element" (get_atom's documented rule): used for the atoms
+            # that ARE the first of their element, the others are handed over as objects
+            a = self._a[i]
+            first = next(x for x in self._a if x.element == a.element)
+            return a.element if first is a else a
         return self._a[i] if self._how == 0 else i if self._how == 1 else self._a[i].label
 
     def __iter__(self):
@@ -99,7 +105,22 @@ class _Named:
         return len(self._a)
 
 
-def build(n, edges, els=None, bts=None, cls="Connectivity", ats=None):
+FORDERS = [0.5, 1.5, 2.5]     # fractional orders of the FractionalOrder (99) bonds, by bond number
+
+
+def _bt(bts, k, plain):
+    """keyword arguments of the k-th bond: its type as a BondType member or - what objects read back from a library carry - as the
+    plain integer of that member; FractionalOrder bonds state their order themselves"""
+    from molli.chem import BondType
+
+    v = bts[k] if bts else 1
+    kw = {"btype": int(v) if plain else BondType(v)}
+    if v == 99:
+        kw["f_order"] = FORDERS[k % 3]
+    return kw
+
+
+def build(n, edges, els=None, bts=None, cls="Connectivity", ats=None, plain_bt=False):
     import molli as ml
     from molli.chem import Atom, BondType, AtomType
 
@@ -111,7 +132,7 @@ def build(n, edges, els=None, bts=None, cls="Connectivity", ats=None):
         extra = [Atom(element=9, label="x0"), Atom(element=17, label="x1")]
         mol = ml.Molecule(extra + atoms, coords=np.zeros((n + 2, 3)))
         for k, (u, v) in enumerate(edges):
-            mol.connect(u + 2, v + 2, btype=BondType(bts[k] if bts else 1))
+            mol.connect(u + 2, v + 2, **_bt(bts, k, plain_bt))
         mol.connect(0, 1)
         if n:
             mol.connect(0, 2)
@@ -123,15 +144,15 @@ def build(n, edges, els=None, bts=None, cls="Connectivity", ats=None):
     else:
         g = ml.ConformerEnsemble(atoms if atoms else None, n_conformers=2, n_atoms=n)
     for k, (u, v) in enumerate(edges):
-        g.connect(u, v, btype=BondType(bts[k] if bts else 1))
+        g.connect(u, v, **_bt(bts, k, plain_bt))
     return g
 
 
-def check_graph(n, edges, els, bts, cls, fails, where, how=0):
+def check_graph(n, edges, els, bts, cls, fails, where, how=0, plain_bt=False):
     """all traversal / ring / adjacency queries of one graph; atoms are named to the API as objects (how=0), integer indices (1) or labels (2)"""
-    g = build(n, edges, els, bts, cls)
+    g = build(n, edges, els, bts, cls, plain_bt=plain_bt)
     atoms = _Named(g.atoms, how)
-    where = where + ["", " [atoms named by index]", " [atoms named by label]"][how]
+    where = where + ["", " [atoms named by index]", " [atoms named by label]", " [atoms named by Element where that is unambiguous]"][how]
     ix = {id(a): i for i, a in enumerate(atoms)}
     adj = {i: [] for i in range(n)}
     for (u, v) in edges:
@@ -150,7 +171,7 @@ def check_graph(n, edges, els, bts, cls, fails, where, how=0):
             fails.append(Fail("bonds_with_atom-wrong", f"{where} atom {s}"))
         if g.n_bonds_with_atom(atoms[s]) != len(adj[s]):
             fails.append(Fail("n_bonds_with_atom-wrong", f"{where} atom {s}: {g.n_bonds_with_atom(atoms[s])} vs {len(adj[s])}"))
-        ev = sum(order[(bts[k] if bts else 1)] for k, e in enumerate(edges) if s in e)
+        ev = sum((FORDERS[k % 3] if (bts and bts[k] == 99) else order[(bts[k] if bts else 1)]) for k, e in enumerate(edges) if s in e)
         if abs(g.bonded_valence(atoms[s]) - ev) > 1e-9:
             fails.append(Fail("bonded_valence-wrong", f"{where} atom {s}: {g.bonded_valence(atoms[s])} vs {ev}"))
         # --- breadth-first traversal without direction
@@ -288,7 +309,10 @@ def gen_graph(r):
 def check_random(r) -> list[Fail]:
     n, edges, els, bts = gen_graph(r)
     fails: list[Fail] = []
-    check_graph(n, edges, els, bts, r["cls"], fails, f"random n={n}", how=r.get("how", 0))
+    if r.get("frac"):
+        # some bonds are of FractionalOrder type (own f_order)
+        bts = [99 if (k + r["frac"]) % 3 == 0 else b for k, b in enumerate(bts)]
+    check_graph(n, edges, els, bts, r["cls"], fails, f"random n={n}" + (" [bond types as plain integers]" if r.get("plain_bt") else ""), how=r.get("how", 0), plain_bt=bool(r.get("plain_bt")))
     return _dedup(fails)
 
 
@@ -315,12 +339,12 @@ def _graph_recipe(max_n):
         "comps": st.lists(i, max_size=3),
         "els": st.lists(i, min_size=4, max_size=40), "bts": st.lists(i, min_size=4, max_size=50),
         "cls": st.sampled_from(["Connectivity", "Molecule", "ConformerEnsemble", "Substructure"]),
-        "how": st.sampled_from([0, 0, 1, 2]),
+        "how": st.sampled_from([0, 0, 1, 2, 3, 3]),
     })
 
 
 def strat_random(tier):
-    return _graph_recipe(40)
+    return st.tuples(_graph_recipe(40), st.sampled_from([0, 0, 1, 2]), st.booleans()).map(lambda t: dict(t[0], frac=t[1], plain_bt=t[2]))
 
 
 # ---------------------------------------------------------------- leg match
